@@ -33,7 +33,7 @@ LEVEL_TEXT = "exhaustive BFS to depth 2 (quick) / 3 (thorough) of the codec/oper
 ASSUMPTIONS = [
     "no netCDF/zarr engine is installed: the netCDF path is represented by the real _sanitize_attrs_nc/_desanitize_attrs_nc pair, the zarr path by a JSON round trip of every attrs dict through xarray's encode_zarr_attr_value (DESIGN 6)",
     "user attribute values are compared for 'loading does not fail and results are identical', not for round-tripping themselves",
-    "depth bound 2 (quick) / 3 (thorough)",
+    "depth bound 2 (quick; 1 for rotator classes) / 3 (thorough)",
 ]
 TALLY_KEYS = ("model", "input", "attrs")
 TRUSTED = ["statsmodels import shim (cross-set constructors)", "xarray.backends.zarr.encode_zarr_attr_value as the zarr attribute encoder"]
@@ -296,6 +296,8 @@ def rounds(tier, seed):
         for c, r in zip(frontier, res):
             if c.get("leaf") or r.get("violations") or level >= depth:
                 continue
+            if tier == "quick" and c["model"] in ROT and level >= 1:
+                continue  # rotator fits cost ~1 s each: depth 1 in the quick tier, full depth in the thorough tier
             fp = r.get("info", {}).get("fp")
             key = (c["model"], c["input"])
             if fp is None or fp in seen.setdefault(key, set()):
